@@ -15,6 +15,24 @@ CHECKS = {
         "alphabet; GFF3 databases; id-recycling judged for fault-free and source-failure histories only",
    tech="deterministic simulation: seeded op histories + fault injection (source failure enumeration, sql error, cancel, crash) vs reference model",
    ref="DESIGN.md §5 C10"),
+ "C20": dict(level="exploration",
+   text="K real forked importer processes share one temp directory and are released one file-system seam point at a time by a "
+        "seeded scheduler (one seed = one exactly repeatable interleaving), with identical temp-name candidate sequences, "
+        "start offsets, and a crash or temp-dir error in one node; each output must equal the solitary run's database and no "
+        "temp file of a finished importer may remain; then R reader processes interleaved per SQL statement must all see the "
+        "solitary reader's content. Sampled schedules, not an exhaustive enumeration.",
+   note="only temp-dir / database-file operations are scheduling points (private sqlite statements commute); one process runs at a time",
+   tech="deterministic simulation: lock-step scheduling of real processes at file-system seam points + crash / temp-dir fault injection",
+   ref="DESIGN.md §5 C20, §2.5"),
+ "C19": dict(level="exploration",
+   text="Seeded histories on an existing database file: create_db(force=False) onto it (same/fresh process, other handle open, "
+        "sql-error/cancel/crash injected into the refused call) must raise and leave raw bytes and logical content untouched; "
+        "force=True must equal a fresh import; random sequences of 17 read-style methods with arbitrary arguments and "
+        "fully/partially/abandoned generators, optional crash-exit with open generators, must leave file bytes, transaction "
+        "state and the content seen by a fresh process unchanged.",
+   note="'no writes' judged by file bytes + in_transaction + logical content from a fresh process; inputs sampled",
+   tech="deterministic simulation: seeded read/refused-write histories with crash and sql-error injection, byte- and content-level observers",
+   ref="DESIGN.md §5 C19"),
 }
 
 NA = {
